@@ -30,11 +30,14 @@ def run(v, workdir, replay):
     v.need("deposit_only_rollups", 2)
     v.need("blocks_with_deposits", 10)
     v.need("filtered_views", 500)
+    v.need("filtered_requests_not_in_ascending_id_order", 20)
+    v.need("filtered_requests_with_a_repeated_id", 10)
     v.need("tampered_artefacts", 500)
     v.need("duplicate_payload_blocks", 3)
     for c in ("payload_byte_flipped", "payload_dropped", "payload_appended", "payloads_reordered", "payload_moved_to_other_rollup", "rollup_ids_relabelled",
               "proof_index_changed", "proof_path_changed", "header_rollup_root_changed", "rollup_dropped", "rollup_invented",
-              "celestia_payload_extended", "celestia_rollup_relabelled", "celestia_other_block_hash", "filtered_payload_extended", "filtered_rollup_relabelled"):
+              "celestia_payload_extended", "celestia_rollup_relabelled", "celestia_other_block_hash", "filtered_payload_extended", "filtered_rollup_relabelled",
+              "full_block_proof_index_changed", "full_block_proof_path_changed"):
         v.need("tamper:" + c, 3)
 
 
@@ -123,6 +126,10 @@ def check(v, hists):
             for e in evs:
                 if e["kind"] == "served_filtered":
                     v.saw("filtered_views")
+                    if e["requested"] != sorted(e["requested"]):
+                        v.saw("filtered_requests_not_in_ascending_id_order")
+                    if len(set(e["requested"])) != len(e["requested"]):
+                        v.saw("filtered_requests_with_a_repeated_id")
                     req = set(e["requested"])
                     exp = {r: x for r, x in expected.items() if r in req}
                     compare("served-filtered", e["rollups"], "GetFilteredSequencerBlock(%d ids)" % len(req), exp)
